@@ -32,6 +32,8 @@ type Tokenizer struct {
 	mi        int
 	num       gen.Number
 	rn        rune
+	hi        rune // pending high surrogate from a \u escape
+	hiEnd     int  // len(tmp) right after the placeholder for hi
 	mode      string
 	exkey     bool
 
@@ -72,6 +74,7 @@ func (t *Tokenizer) Parse(buf []byte, handler oj.TokenHandler) (err error) {
 	t.line = 1
 	t.mode = valueMap
 	t.mi = 0
+	t.hi = 0
 	defer func() {
 		if r := recover(); r != nil {
 			err = ojg.NewError(r)
@@ -103,6 +106,7 @@ func (t *Tokenizer) Load(r io.Reader, handler oj.TokenHandler) (err error) {
 	t.noff = -1
 	t.line = 1
 	t.mi = 0
+	t.hi = 0
 	buf := make([]byte, readBufSize)
 	eof := false
 	defer func() {
@@ -362,6 +366,7 @@ func (t *Tokenizer) tokenizeBuffer(buf []byte, last bool) {
 			}
 			off += i
 		case strQuote:
+			t.hi = 0
 			t.addString(string(t.tmp))
 		case numZero:
 			t.mode = zeroMap
@@ -407,8 +412,19 @@ func (t *Tokenizer) tokenizeBuffer(buf []byte, last bool) {
 				if len(t.runeBytes) < 6 {
 					t.runeBytes = make([]byte, 6)
 				}
+				if t.hi != 0 && t.hiEnd == len(t.tmp) && 0xDC00 <= t.rn && t.rn <= 0xDFFF {
+					// The low half of a surrogate pair. Replace the placeholder
+					// written for the high half with the combined code point.
+					t.tmp = t.tmp[:len(t.tmp)-3]
+					t.rn = 0x10000 + (t.hi-0xD800)<<10 + (t.rn - 0xDC00)
+				}
+				t.hi = 0
 				n := utf8.EncodeRune(t.runeBytes, t.rn)
 				t.tmp = append(t.tmp, t.runeBytes[:n]...)
+				if 0xD800 <= t.rn && t.rn <= 0xDBFF {
+					t.hi = t.rn
+					t.hiEnd = len(t.tmp)
+				}
 				t.mode = stringMap
 			}
 			continue
